@@ -9,6 +9,7 @@ from typing import TYPE_CHECKING, Any, Optional, Type, TypeVar, Union
 
 from typing_extensions import ParamSpec, TypeAlias
 
+from mashumaro.core.meta import _verif
 from mashumaro.core.meta.code.lines import CodeLines
 from mashumaro.core.meta.helpers import (
     get_type_origin,
@@ -175,6 +176,13 @@ class AbstractMethodBuilder(ABC):
             print(f"{type_name(spec.builder.cls)}:")
             print(lines.as_text())
         exec(lines.as_text(), spec.builder.globals, spec.builder.__dict__)
+        if _verif.ENABLED:
+            _verif.emit(
+                "compile",
+                cls=spec.builder.cls,
+                code=lines.as_text(),
+                globals=spec.builder.globals,
+            )
 
     @abstractmethod
     def _get_call_expr(self, spec: ValueSpec, method_name: str) -> str:
